@@ -301,6 +301,7 @@ struct Run<'r> {
     sigs: Vec<String>,
     steps: usize,
     failed_ops: usize,
+    flag_before: bool,
 }
 
 fn text_label_for_limit(rng: &mut Rng, n: usize) -> Vec<u8> {
@@ -410,6 +411,17 @@ impl<'r> Run<'r> {
                 if let Err(fd) = check_view(pp) {
                     self.findings.push(Finding { prop: Prop::C10, class: format!("failed-op|{}", fd.class), detail: format!("after failed {}: {}", what, fd.detail) });
                 }
+                // In a state the parser cannot represent (no question, or a query holding records) an object
+                // marked "maybe compressed" can no longer be edited at all: every edit first decompresses, which
+                // re-parses. A call that reports failure must not put the object there.
+                let bytes = pp.packet.as_ref().unwrap();
+                if !strict_state(bytes) && pp.maybe_compressed && !self.flag_before {
+                    self.findings.push(f(
+                        Prop::C10,
+                        "failed-op|object-left-uneditable",
+                        format!("{} returned an error and left the object marked as possibly compressed although its bytes cannot be re-parsed (no question / query with records): later edits will all fail", what),
+                    ));
+                }
             }
         }
     }
@@ -506,8 +518,11 @@ pub fn run_history(rng: &mut Rng, mix: Mix) -> Outcome {
             max_records: 8,
             unique_ttl: rng.chance(1, 2),
             alphabet: 5,
-            // names that alias header bytes are handled by `header_alias_case` (known finding)
-            allow_header_targets: false,
+            // names that alias header bytes: a header *setter* on them is the known finding handled by
+            // `header_alias_case`; every other operation must work on them (the first one that decompresses
+            // ends the aliasing), so a quarter of these starts may have such names and the history then
+            // avoids header setters while a pointer into the header remains
+            allow_header_targets: rng.chance(1, 4),
             ..Default::default()
         };
         let v = gen_valid(rng, &cfg);
@@ -525,7 +540,7 @@ pub fn run_history(rng: &mut Rng, mix: Mix) -> Outcome {
         l.clear();
         l.push(format!("start {} bytes {}", start_desc, hex(&start_bytes[..start_bytes.len().min(700)])));
     });
-    let mut run = Run { want: mix.want, rng, model: model0, nocase: false, log: vec![format!("start {}", start_desc)], findings: vec![], ctx_counts: vec![], sigs: vec![], steps: 0, failed_ops: 0 };
+    let mut run = Run { want: mix.want, rng, model: model0, nocase: false, log: vec![format!("start {}", start_desc)], findings: vec![], ctx_counts: vec![], sigs: vec![], steps: 0, failed_ops: 0, flag_before: false };
     if run.monitor(&pp, "start").is_none() {
         let Run { log, findings, .. } = run;
         return Outcome { steps: 0, findings, log, start: start_bytes };
@@ -540,11 +555,20 @@ pub fn run_history(rng: &mut Rng, mix: Mix) -> Outcome {
         run.steps += 1;
         let bytes_now = pp.packet().to_vec();
         // "nothing changed" is judged against what the packet decoded to before the call, not against the model
-        let before = refparse(&bytes_now, RELAXED).map(|d| d.msg).unwrap_or_else(|_| run.model.clone());
+        let decoded_now = refparse(&bytes_now, RELAXED);
+        let aliasing = decoded_now.as_ref().map(|d| d.layout.ptr_into_header).unwrap_or(false);
+        let before = decoded_now.map(|d| d.msg).unwrap_or_else(|_| run.model.clone());
         let strict = strict_state(&bytes_now);
         let compressed = pp.maybe_compressed;
+        run.flag_before = compressed;
         let err_step = run.rng.below(16) < mix.error_sixteenths;
-        let choice = run.rng.below(100);
+        let mut choice = run.rng.below(100);
+        if aliasing {
+            run.note("steps_on_header_aliased_packets");
+            if choice < 14 {
+                choice = 14 + run.rng.below(86);
+            }
+        }
         let sig: String;
         if choice < 14 {
             // ---- header setters
@@ -949,7 +973,24 @@ fn session(run: &mut Run, pp: &mut ParsedPacket, kind: IterKind, err_step: bool,
             run.logp(what.clone());
             run.sigs.push(format!("set_raw_name|{:?}|{}|c{}|opt{}", kind, grow.signum(), compressed as u8, run.model.opt().is_some() as u8));
             let fits = run.literal_len() as isize + grow <= 0xffff;
-            match cur.set_raw_name(&n.to_wire()) {
+            // the name may sit at the start of a longer slice (a zero-padded 256-byte buffer, or other bytes after
+            // the root label): the call may refuse that, or take the name and nothing else
+            let mut arg = n.to_wire();
+            let padded = run.rng.chance(1, 8);
+            if padded {
+                if run.rng.chance(1, 2) {
+                    arg.resize(256.max(arg.len() + 1), 0);
+                } else {
+                    let k = run.rng.range(1, 40);
+                    for _ in 0..k {
+                        let b = run.rng.u8();
+                        arg.push(b);
+                    }
+                }
+                run.logp(format!("    (name passed at the start of a {}-byte slice)", arg.len()));
+                run.note("names_set_from_longer_slice");
+            }
+            match cur.set_raw_name(&arg) {
                 Ok(()) => {
                     match pos {
                         Pos::Question => run.model.question[0].name = n.clone(),
@@ -1006,7 +1047,7 @@ fn session(run: &mut Run, pp: &mut ParsedPacket, kind: IterKind, err_step: bool,
                     }
                 }
                 Err(e) => {
-                    if strict && fits {
+                    if strict && fits && !padded {
                         run.findings.push(f(Prop::C08, "unexpected-error|set_raw_name", format!("{}: {}", what, e)));
                     }
                     run.failed(cur.pp(), &before, &what);
